@@ -16,7 +16,7 @@ pub fn plan() -> Plan {
         meta: Meta {
             property: "C11",
             level: "fault_enumeration",
-            rule: "for a random history (puts, deletes incl. into closed blobs, rotations, background dumps, force updates, restarts) a fault-free run first counts the tap operations per (kind, file class); then the history is re-run once per (fault class, n) with 'the n-th operation of that kind fails' (quick: <=150 sampled per history with every class covered, thorough: all). Fault classes: blob write EIO, blob short write (m bytes then ENOSPC), blob sync EIO, blob create ENOSPC, blob open EIO, index write/create/sync/positional-write failures, index open EIO. Oracle: at the faulted step the client call returns Err or (background task / swallowed) nothing is acknowledged wrongly; after the fault is cleared every record acknowledged BEFORE the fault reads back with correct bytes after every following step (full query surface against the model, the failed operation is not in the model); the failed operation is never served later, also not after restart; further writes/deletes are accepted and readable; the worker still rotates (force update creates a new blob); after a final clean restart every acknowledged record is served or its bytes sit in a quarantined blob file. Keys touched by a partially applied multi-blob delete are excluded (tainted). A quarter of the histories run with ignore_corrupted: a blob that init skipped under a fault is parked (its file must still hold every acknowledged record) and must be served again by the next init that lists it. A second engine lowers RLIMIT_FSIZE for one step (SIGXFSZ ignored), so the kernel itself cuts a write short (EFBIG) at blob end + 0..120 bytes or at an absolute 0..6000 bytes: nothing between the system call and the error handling is bypassed. After the fault, for every served blob whose file parses to its end, the reported record count must lie between the records of acknowledged appends in the file and that number plus the records left behind by failed appends. Non-trivial = case in which the fault actually fired; distinct = hash(history, fault class, n).",
+            rule: "for a random history (puts, deletes incl. into closed blobs, rotations, background dumps, force updates, restarts) a fault-free run first counts the tap operations per (kind, file class); then the history is re-run once per (fault class, n) with 'the n-th operation of that kind fails' (quick: <=150 sampled per history with every class covered, thorough: all). Fault classes: blob write EIO, blob short write (m bytes then ENOSPC), blob sync EIO, blob create ENOSPC, blob open EIO / EACCES, blob write ENOENT (the kind pearl reports as 'work dir unavailable'), index write/create/sync/positional-write failures, index open EIO / EACCES (for which pearl refuses to regenerate the index). Oracle: at the faulted step the client call returns Err or (background task / swallowed) nothing is acknowledged wrongly; after the fault is cleared every record acknowledged BEFORE the fault reads back with correct bytes after every following step (full query surface against the model, the failed operation is not in the model); the failed operation is never served later, also not after restart; further writes/deletes are accepted and readable; the worker still rotates (force update creates a new blob); after a final clean restart every acknowledged record is served or its bytes sit in a quarantined blob file. Keys touched by a partially applied multi-blob delete are excluded (tainted). A quarter of the histories run with ignore_corrupted: a blob that init skipped under a fault is parked (its file must still hold every acknowledged record) and must be served again by the next init that lists it. A second engine lowers RLIMIT_FSIZE for one step (SIGXFSZ ignored), so the kernel itself cuts a write short (EFBIG) at blob end + 0..120 bytes or at an absolute 0..6000 bytes: nothing between the system call and the error handling is bypassed. After the fault, for every served blob whose file parses to its end, the reported record count must lie between the records of acknowledged appends in the file and that number plus the records left behind by failed appends. Non-trivial = case in which the fault actually fired; distinct = hash(history, fault class, n).",
             assumptions: vec!["faults are injected at the File layer of pearl (H1 failpoints), one per run", "verdict holds for the histories and fault positions generated for this seed"],
         },
         shards: 16,
@@ -41,7 +41,8 @@ struct FaultClass {
     label: &'static str,
     kinds: Vec<Kind>,
     suffix: &'static str,
-    /// 0 = Fail(EIO), 1 = Fail(ENOSPC), 2 = Short, 3 = Fail(ENOENT) (the only error kind pearl maps to "work dir unavailable")
+    /// 0 = Fail(EIO), 1 = Fail(ENOSPC), 2 = Short, 3 = Fail(ENOENT) (the only error kind pearl maps to "work dir unavailable"),
+    /// 4 = Fail(EACCES) (PermissionDenied: index regeneration is refused for this kind instead of falling back to the blob)
     mode: u8,
 }
 
@@ -58,6 +59,8 @@ fn classes() -> Vec<FaultClass> {
         FaultClass { label: "index-sync-eio", kinds: vec![Kind::Sync], suffix: ".index", mode: 0 },
         FaultClass { label: "index-writeat-eio", kinds: vec![Kind::WriteAt], suffix: ".index", mode: 0 },
         FaultClass { label: "index-open-eio", kinds: vec![Kind::Open], suffix: ".index", mode: 0 },
+        FaultClass { label: "index-open-eacces", kinds: vec![Kind::Open], suffix: ".index", mode: 4 },
+        FaultClass { label: "blob-open-eacces", kinds: vec![Kind::Open], suffix: ".blob", mode: 4 },
     ]
 }
 
@@ -635,6 +638,7 @@ fn eval_history<const N: usize>(ctx: &Ctx, sh: &mut Shard, rng: &mut Rng, cfg: &
             0 => Action::Fail(libc::EIO),
             1 => Action::Fail(libc::ENOSPC),
             3 => Action::Fail(libc::ENOENT),
+            4 => Action::Fail(libc::EACCES),
             // always shorter than the smallest record (a deletion marker: header + 8 bytes of empty meta), so the
             // failed append is torn for real; lengths from the record header size up leave the header intact
             _ => Action::Short(rng.range(1, (57 + N + 8 - 1) as u64), libc::ENOSPC),
